@@ -453,6 +453,114 @@ theorem field_agree (env : Env) (sup : Support) (t : TyName)
     exact ⟨.primView d (sliceMut ltm), viewAbi, by simp [cTy, hd], by simp [cAbiSimple, hc], by simp [toSyn, rAbi]⟩
 
 
+/-! ### callbacks: the signature of `run_callback` -/
+
+theorem optMapM_map {α β γ : Type} (f : α → Option β) (g : β → γ) (h : α → γ) (ps : List α)
+    (H : ∀ p ∈ ps, ∃ c, f p = some c ∧ g c = h p) :
+    ∃ cs, optMapM f ps = some cs ∧ cs.map g = ps.map h := by
+  induction ps with
+  | nil => exact ⟨[], rfl, rfl⟩
+  | cons p ps ih =>
+    obtain ⟨c, hc, hg⟩ := H p (by simp)
+    obtain ⟨cs, hcs, hm⟩ := ih (fun q hq => H q (by simp [hq]))
+    exact ⟨c :: cs, by simp [optMapM, hc, hcs], by simp [hg, hm]⟩
+
+
+theorem outOk_mono (env : Env) (sup : Support) (is : Bool) (t : TyName) (h : OutOk env sup is false t) :
+    OutOk env sup is true t := by
+  cases h with
+  | prim _ _ p => exact .prim _ _ p
+  | ordering _ => exact .ordering _
+  | struct _ _ n out fields hg hz => exact .struct _ _ n out fields hg (Or.inl rfl)
+  | enum _ _ n hg => exact .enum _ _ n hg
+  | refOpaque _ _ lt m t ho => exact .refOpaque _ _ lt m t ho
+  | boxOpaque _ _ t ho => exact .boxOpaque _ _ t ho
+  | optRefOpaque _ _ lt m t ho => exact .optRefOpaque _ _ lt m t ho
+  | optBoxOpaque _ _ t ho => exact .optBoxOpaque _ _ t ho
+  | optNamed _ _ n sd h1 h2 h3 h4 => exact .optNamed _ _ n sd h1 h2 h3 h4
+  | optPrim _ _ p sd h1 h2 => exact .optPrim _ _ p sd h1 h2
+  | borrowedStr _ _ lt e sd => exact .borrowedStr _ _ lt e sd
+  | borrowedSlice _ _ ltm p sd => exact .borrowedSlice _ _ ltm p sd
+
+/-- the macro's parameter type and the FFI-safe version written with `to_syn` mean the same on the wire -/
+theorem paramTy_abi (env : Env) (sup : Support) (t : TyName) (h : OutOk env sup false false t) :
+    rAbi env (paramTy t) = rAbi env (toSyn (ffiSafeVersion t)) := by
+  cases h with
+  | ordering _ => simp [paramTy, ffiSafeVersion, toSyn, rAbi, rustPrimAbi]
+  | optNamed _ _ n sd _ _ _ _ => cases sd <;> simp [paramTy, isFfiSafe, ffiSafeVersion, toSyn]
+  | optPrim _ _ p sd _ _ => cases sd <;> simp [paramTy, isFfiSafe, ffiSafeVersion, toSyn]
+  | optRefOpaque _ _ lt m t ho => simp [paramTy, isFfiSafe, ffiSafeVersion, toSyn]
+  | optBoxOpaque _ _ t ho => simp [paramTy, isFfiSafe, ffiSafeVersion, toSyn]
+  | borrowedStr _ _ lt e sd => cases sd <;> simp [paramTy, ffiSafeVersion, toSyn]
+  | borrowedSlice _ _ ltm p sd => cases sd <;> simp [paramTy, ffiSafeVersion, toSyn]
+  | _ => simp [paramTy, ffiSafeVersion, toSyn]
+
+/-- **A callback argument agrees.** For every type the gate accepts as a callback parameter (lowered with the
+    output rules), the type the macro puts into the transmuted `run_callback` signature and the type the C
+    backend declares in the wrapper struct have the same, defined, wire description. -/
+theorem callback_arg_agree (env : Env) (sup : Support) (t : TyName)
+    (h : OutOk env sup false false t) (h128 : has128 t = false) :
+    ∃ c a, cTy env t = some c ∧ cAbiSimple c = some a ∧ rAbi env (paramTy t) = some a ∧ a ≠ [] := by
+  obtain ⟨oc, a, h1, h2, h3⟩ := arm_agree env sup t (Or.inr (outOk_mono env sup false t h)) h128
+  have hz : isZst env t = false := by
+    cases h with
+    | struct _ _ n out fields hg hz =>
+      simp only [isZst, hg]
+      rcases hz with hz | hz <;> simp_all
+    | enum _ _ n hg => simp [isZst, hg]
+    | _ => simp [isZst]
+  have hu : isUnit t = false := by cases h <;> rfl
+  simp only [cArm, hz, hu, Bool.or_self, Bool.false_eq_true, ↓reduceIte] at h1
+  cases hc : cTy env t with
+  | none => simp [hc] at h1
+  | some c =>
+    simp only [hc, Option.map_some, Option.some.injEq] at h1
+    subst h1
+    simp only [cArmAbi] at h3
+    cases hcs : cAbiSimple c with
+    | none => simp [hcs] at h3
+    | some ca =>
+      simp only [hcs, Option.map_some, Option.some.injEq] at h3
+      have hne : a ≠ [] := by
+        intro he; subst he; simp at h3
+      have : ca = a := by
+        rw [rArm_ne hne] at h3
+        exact (List.cons.inj h3).1
+      subst this
+      exact ⟨c, ca, rfl, hcs, by rw [paramTy_abi env sup t h, h2], hne⟩
+
+/-- **The callback signature agrees** (arguments of any accepted type; results: unit, primitives, enums and structs
+    by value — what `to_syn` leaves FFI-safe). The C wrapper struct's `run_callback` has as many arguments as the
+    signature the macro transmutes to, after the leading `void*`, each with the same wire description, and the same
+    result. -/
+theorem callback_sig_agree (env : Env) (sup : Support) (ps : List TyName) (r : TyName)
+    (hps : ∀ p ∈ ps, OutOk env sup false false p ∧ has128 p = false)
+    (hr : r = .unit ∨ (∃ p, r = .prim p ∧ is128 p = false) ∨ (∃ n, r = .named n ∧ InOk env sup false (.named n))) :
+    ∃ cs cr, cbCSig env ps r = some (cs, cr)
+      ∧ cs.map cAbiSimple = (cbRustSig ps r).1.map (rAbi env)
+      ∧ cs.length = ps.length
+      ∧ cAbiSimple cr = rAbi env (cbRustSig ps r).2 ∧ (cAbiSimple cr).isSome = true := by
+  obtain ⟨cs, hcs, hmap⟩ := optMapM_map (cTy env) cAbiSimple (fun p => rAbi env (paramTy p)) ps
+    (fun p hp => by
+      obtain ⟨c, a, h1, h2, h3, _⟩ := callback_arg_agree env sup p (hps p hp).1 (hps p hp).2
+      exact ⟨c, h1, by rw [h2, h3]⟩)
+  have hlen : cs.length = ps.length := by
+    have := congrArg List.length hmap
+    simpa using this
+  rcases hr with rfl | ⟨p, rfl, hp⟩ | ⟨n, rfl, hn⟩
+  · exact ⟨cs, .void, by simp [cbCSig, hcs, isUnit], by rw [hmap]; simp [cbRustSig, List.map_map, Function.comp_def], hlen,
+      by simp [cbRustSig, toSyn, rAbi, cAbiSimple], by simp [cAbiSimple]⟩
+  · obtain ⟨c, hc, ha⟩ := cPrim_some p hp
+    exact ⟨cs, .prim c, by simp [cbCSig, hcs, isUnit, cTy, hc], by rw [hmap]; simp [cbRustSig, List.map_map, Function.comp_def], hlen,
+      by simp [cbRustSig, toSyn, rAbi, cAbiSimple, ha], by simp [cAbiSimple, ha]⟩
+  · cases hn with
+    | struct _ _ fields hg hne =>
+      exact ⟨cs, .structTy n, by simp [cbCSig, hcs, isUnit, cTy, hg], by rw [hmap]; simp [cbRustSig, List.map_map, Function.comp_def], hlen,
+        by simp [cbRustSig, toSyn, rAbi, cAbiSimple, hg, hne], by simp [cAbiSimple]⟩
+    | enum _ _ hg =>
+      exact ⟨cs, .enumTy n, by simp [cbCSig, hcs, isUnit, cTy, hg], by rw [hmap]; simp [cbRustSig, List.map_map, Function.comp_def], hlen,
+        by simp [cbRustSig, toSyn, rAbi, cAbiSimple, hg], by simp [cAbiSimple]⟩
+
 /-! ### whole methods -/
 
 /-- what the gate demands of one parameter of a method (`lower_method`): the trailing write buffer,
@@ -467,16 +575,6 @@ def SelfAgreeOk (env : Env) (owner : String) : Option ASelf → Prop
     (env.get owner = some .opaqueTy ∧ s.byRef = true)
     ∨ (∃ fields, env.get owner = some (.struct false fields) ∧ fields.isEmpty = false ∧ s.byRef = false)
     ∨ (env.get owner = some .enumTy ∧ s.byRef = false)
-
-theorem optMapM_map {α β γ : Type} (f : α → Option β) (g : β → γ) (h : α → γ) (ps : List α)
-    (H : ∀ p ∈ ps, ∃ c, f p = some c ∧ g c = h p) :
-    ∃ cs, optMapM f ps = some cs ∧ cs.map g = ps.map h := by
-  induction ps with
-  | nil => exact ⟨[], rfl, rfl⟩
-  | cons p ps ih =>
-    obtain ⟨c, hc, hg⟩ := H p (by simp)
-    obtain ⟨cs, hcs, hm⟩ := ih (fun q hq => H q (by simp [hq]))
-    exact ⟨c :: cs, by simp [optMapM, hc, hcs], by simp [hg, hm]⟩
 
 /-- one parameter position: the write buffer is a pointer on both sides, a callback is the same
     three-word struct on both sides, anything else is `param_agree_partial` -/
